@@ -56,7 +56,7 @@ def main (args : List String) : IO UInt32 := do
   | ["crash", "--spec"] => loop stdin stdout ({} : CrashDrv.SpecSt) CrashDrv.specStep {}; return 0
   | ["priv"] => loop stdin stdout () PrivDrv.step (); return 0
   | ["priv", "--spec"] => loop stdin stdout ({} : PrivDrv.SpecSt) PrivDrv.specStep {}; return 0
-  | ["apply"] => loop stdin stdout RNacos.Namespace.initial ApplyDrv.step RNacos.Namespace.initial; return 0
+  | ["apply"] => loop stdin stdout ({} : ApplyDrv.MSt) ApplyDrv.step {}; return 0
   | ["apply", "--spec"] => loop stdin stdout ({} : ApplyDrv.SpecSt) ApplyDrv.specStep {}; return 0
   | ["logstore"] => loop stdin stdout ({} : RNacos.LogStore.Store) StoreDrv.step {}; return 0
   | ["logstore", "--spec"] => loop stdin stdout ({} : StoreDrv.SpecSt) StoreDrv.specStep {}; return 0
